@@ -442,6 +442,8 @@ fn run<T: QApi>(q: &mut T, op: &Value, cx: &mut Ctx, ev: &mut Map<String, Value>
         "iter_mut" => {
             let cnt = n(op, "n") as usize;
             let nb = n(op, "nb") as usize;
+            let bf = b(op, "bf");
+            ev.insert("bf".into(), json!(bf));
             let set = op.get("set").and_then(|v| v.as_object()).cloned().unwrap_or_default();
             let wp = b(op, "wp");
             let forget = b(op, "forget");
@@ -455,7 +457,7 @@ fn run<T: QApi>(q: &mut T, op: &Value, cx: &mut Ctx, ev: &mut Map<String, Value>
             CMPS.with(|c| c.set(0));
             {
                 let scratch = &mut *cx.scratch;
-                q.iter_mut_front(cnt, nb, via_ref, forget, &mut |i, p| {
+                q.iter_mut_front(cnt, nb, bf, via_ref, forget, &mut |i, p| {
                     let y = (&*i, &*p).y();
                     let mut rec = el(&y);
                     rec["ai"] = json!(y.ai as u64 % 1_000_000_007);
@@ -564,7 +566,7 @@ fn run<T: QApi>(q: &mut T, op: &Value, cx: &mut Ctx, ev: &mut Map<String, Value>
             let adaptor = s(op, "adapt");
             let k = n(op, "k") as usize;
             let forget = b(op, "forget");
-            let calls: Vec<i64> = op.get("calls").and_then(|v| v.as_array()).map(|a| a.iter().map(|x| x.as_i64().unwrap_or(0)).collect()).unwrap_or_default();
+            let calls = calls_of(op);
             ev.insert("it".into(), json!(it));
             ev.insert("adapt".into(), json!(adaptor));
             ev.insert("k".into(), json!(k));
@@ -582,29 +584,46 @@ fn run<T: QApi>(q: &mut T, op: &Value, cx: &mut Ctx, ev: &mut Map<String, Value>
     }
 }
 
-/// call codes: 0 next, 1 next_back, 2 len, 3 size_hint
-pub fn proto_calls(p: &mut dyn Proto, calls: &[i64], out: &mut Vec<Value>) {
+/// calls of a protocol sequence: a code, or [code, k] for nth / nth_back
+pub fn calls_of(op: &Value) -> Vec<(i64, usize)> {
+    op.get("calls").and_then(|v| v.as_array()).map(|a| {
+        a.iter().map(|x| match x.as_array() {
+            Some(p) => (p[0].as_i64().unwrap_or(0), p.get(1).and_then(|v| v.as_u64()).unwrap_or(0) as usize),
+            None => (x.as_i64().unwrap_or(0), 0),
+        }).collect()
+    }).unwrap_or_default()
+}
+
+/// call codes: 0 next, 1 next_back, 2 len, 3 size_hint, 4 nth(k), 5 nth_back(k), 6 last (consumes), 7 count (consumes)
+pub fn proto_calls(p: &mut dyn Proto, calls: &[(i64, usize)], out: &mut Vec<Value>) {
     let yv = |y: Option<Y>| match y {
         None => json!([]),
         Some(y) => json!([{"k": y.k, "pay": y.pay, "r": y.r, "t": y.t, "ai": (y.ai as u64 % 1_000_000_007), "ap": (y.ap as u64 % 1_000_000_007)}]),
     };
-    for c in calls {
+    for (c, k) in calls {
         // every call is recorded before it runs so that a panic shows where it happened
-        out.push(json!({"c": c, "st": "started"}));
+        out.push(json!({"c": c, "st": "started", "k": k}));
         let rec = match c {
-            0 => json!({"c": 0, "st": "done", "y": yv(p.next())}),
+            0 => json!({"c": 0, "st": "done", "k": 0, "y": yv(p.next())}),
             1 => match p.next_back() {
-                Some(y) => json!({"c": 1, "st": "done", "y": yv(y)}),
-                None => json!({"c": 1, "st": "na"}),
+                Some(y) => json!({"c": 1, "st": "done", "k": 0, "y": yv(y)}),
+                None => json!({"c": 1, "st": "na", "k": 0}),
             },
             2 => match p.len() {
-                Some(l) => json!({"c": 2, "st": "done", "len": l.min(1 << 30)}),
-                None => json!({"c": 2, "st": "na"}),
+                Some(l) => json!({"c": 2, "st": "done", "k": 0, "len": l.min(1 << 30)}),
+                None => json!({"c": 2, "st": "na", "k": 0}),
             },
-            _ => {
+            3 => {
                 let (lo, hi) = p.size_hint();
-                json!({"c": 3, "st": "done", "lo": lo.min(1 << 30), "hi": match hi { Some(h) => json!([h.min(1 << 30)]), None => json!([]) }})
+                json!({"c": 3, "st": "done", "k": 0, "lo": lo.min(1 << 30), "hi": match hi { Some(h) => json!([h.min(1 << 30)]), None => json!([]) }})
             }
+            4 => json!({"c": 4, "st": "done", "k": k, "y": yv(p.nth(*k))}),
+            5 => match p.nth_back(*k) {
+                Some(y) => json!({"c": 5, "st": "done", "k": k, "y": yv(y)}),
+                None => json!({"c": 5, "st": "na", "k": k}),
+            },
+            6 => json!({"c": 6, "st": "done", "k": 0, "y": yv(p.last())}),
+            _ => json!({"c": 7, "st": "done", "k": 0, "len": p.count().min(1 << 30)}),
         };
         *out.last_mut().unwrap() = rec;
     }
@@ -970,7 +989,7 @@ impl<W: Write> Interp<W> {
                 let it = s(op, "it").to_string();
                 let adaptor = s(op, "adapt").to_string();
                 let k = n(op, "k") as usize;
-                let calls: Vec<i64> = op.get("calls").and_then(|v| v.as_array()).map(|a| a.iter().map(|x| x.as_i64().unwrap_or(0)).collect()).unwrap_or_default();
+                let calls = calls_of(op);
                 ev.insert("it".into(), json!(it));
                 ev.insert("adapt".into(), json!(adaptor));
                 ev.insert("k".into(), json!(k));
